@@ -2,8 +2,9 @@
    Only ExtrOcamlBasic is used (bool, option, unit, list, prod, sumbool, sumor mapped to OCaml's);
    no Extract Constant / Extract Inductive directive of our own. N, positive, nat, Z and string
    stay Coq datatypes. *)
-From HC Require Import Base NMap Codec Crypto FlatTree Storage Bitfield Oplog Merkle Core PagedMem.
+From HC Require Import Base NMap Codec Crypto FlatTree Storage Bitfield Oplog Merkle Core PagedMem DiskFile.
 Require Extraction.
+From HC Require Import Broadcast.
 Require Import ExtrOcamlBasic.
 Extraction Language OCaml.
 Extraction "hcmodel.ml"
@@ -27,5 +28,10 @@ Extraction "hcmodel.ml"
   (* crypto layouts (reference values for C05) *)
   leaf_hash parent_hash tree_hash signable block_node parent_node
   mkWorld mkCrypto
+  (* the event channel (model of async-broadcast 0.7.2 as configured by src/replication/events.rs) on operation lists (C13) *)
+  run_bc_n
   (* the paged in-memory backend (model of random-access-memory 3.0.0) and the flat file, on operation lists (C14) *)
-  run_ram run_file.
+  run_ram run_file
+  (* the disk backend (model of random-access-disk 3.0.1 over a POSIX file, DiskFile.v), both del variants, and the flat file
+     on operation lists with reopen (C14) *)
+  run_rad run_dfile ops_tight mkDcfg.
